@@ -120,6 +120,10 @@ class Engine:
         self.sigmas = []
         self.native_template = None
         self._globals_cache = {}
+        self.no_fork = False
+        self._inc = None
+        self._inc_n = 0
+        self._inc_last = None
 
     def fresh_name(self, base):
         k = self._fresh.get(base, 0)
@@ -164,12 +168,25 @@ class Engine:
         s.set('timeout', timeout_ms)
         return s
 
+    def _sync_solver(self):
+        """one incremental solver per path, kept in step with self.pc (rebuilt when the pc was cut back)"""
+        n = len(self.pc)
+        if self._inc is None or self._inc_n > n or (self._inc_n and self._inc_last is not self.pc[self._inc_n - 1]):
+            self._inc = self._solver(8000)
+            self._inc_n = 0
+        if self._inc_n < n:
+            self._inc.add(*self.pc[self._inc_n:])
+            self._inc_n = n
+            self._inc_last = self.pc[n - 1]
+        return self._inc
+
     def feasible(self, extra):
         t0 = time.time()
-        s = self._solver(3000)
-        s.add(*self.pc)
+        s = self._sync_solver()
+        s.push()
         s.add(extra)
         r = s.check()
+        s.pop()
         self.stats['feas_calls'] += 1
         self.stats['feas_time'] += time.time() - t0
         return r != z3.unsat
@@ -179,17 +196,20 @@ class Engine:
         c = conc_int(t)
         if c is not None:
             return c
-        s = self._solver(3000)
-        s.add(*self.pc)
-        if s.check() != z3.sat:
+        s = self._sync_solver()
+        s.push()
+        try:
+            if s.check() != z3.sat:
+                return None
+            v = s.model().eval(t, model_completion=True)
+            if not z3.is_int_value(v):
+                return None
+            s.add(t != v)
+            if s.check() == z3.unsat:
+                return v.as_long()
             return None
-        v = s.model().eval(t, model_completion=True)
-        if not z3.is_int_value(v):
-            return None
-        s.add(t != v)
-        if s.check() == z3.unsat:
-            return v.as_long()
-        return None
+        finally:
+            s.pop()
 
     def decide(self, c):
         """True / False when the path condition entails c / not c, else None (two cheap solver calls)"""
@@ -223,6 +243,11 @@ class Engine:
         bl = bool_lit(c)
         if bl is not None:
             return bl
+        if self.no_fork:
+            d = self.decide(c)
+            if d is None:
+                raise Unsupported('branch inside a symbolic comprehension element')
+            return d
         if self.di < len(self.prefix):
             d = self.prefix[self.di]
             self.di += 1
@@ -464,6 +489,17 @@ class Engine:
             return v.t
         if isinstance(v, VBool):
             return z3.If(v.t, 1, 0)
+        if isinstance(v, VBV):
+            c = conc_int(v.t)
+            if c is not None:
+                return z3.IntVal(c)
+            if v.w <= 5:
+                # small bit-vector used as a python int (index, length): finite case split, no Int<->BV conversion
+                for val in range(1 << v.w):
+                    if self.branch(v.t == val):
+                        return z3.IntVal(val)
+                raise PathEnd()
+            raise Unsupported('wide bit-vector int used as an unbounded int')
         if isinstance(v, VUnknown):
             raise Unsupported('use of %r' % (v,))
         raise Unsupported('%s expected, got %r' % (what, v))
@@ -989,7 +1025,7 @@ class Engine:
             return d.iter_keys(self)
         if isinstance(it, VRef) and self.kind_of(it) == 'iter':
             return list(self.getf(it, 'items'))
-        sq = self.list_val(it)
+        sq = self.fix_len(self.list_val(it))
         c = sq.clen()
         if c is None:
             raise Unsupported('iteration over symbolic-length sequence without loop spec')
@@ -1368,6 +1404,13 @@ class Engine:
         if isinstance(a, VSeq) and a.kind == 'str' and isinstance(op, ast.Mod):
             raise Unsupported('%-formatting')
         if isinstance(a, VBV) or isinstance(b, VBV):
+            small = all((not isinstance(v, VBV)) or v.w <= 5 or conc_int(v.t) is not None for v in (a, b))
+            if isinstance(a, VBV) and isinstance(op, ast.Sub) and isinstance(b, VInt) and b.conc() is not None and 0 <= b.conc() < (1 << a.w) \
+                    and conc_int(a.t) is None and self.decide(z3.UGE(a.t, b.conc())) is True:
+                return VBV(z3.simplify(a.t - z3.BitVecVal(b.conc(), a.w)))      # no underflow: stays a bit-vector int
+            if small and isinstance(op, (ast.Add, ast.Sub, ast.Mult, ast.FloorDiv, ast.Mod)) and not (isinstance(a, VBV) and isinstance(b, VBV)):
+                # a small bit-vector int in ordinary arithmetic: finite case split to a python int
+                return self.binop(VInt(self.as_int(a)), op, VInt(self.as_int(b)))
             return self.bv_binop(a, op, b)
         if isinstance(a, VSeq) or isinstance(b, VSeq) or a is NONE or b is NONE:
             self.throw(TypeError, 'unsupported operand types')
@@ -1422,6 +1465,10 @@ class Engine:
             return VBV(z3.simplify(x & y))
         if isinstance(op, ast.BitOr):
             return VBV(z3.simplify(x | y))
+        if isinstance(op, ast.Sub):
+            if self.feasible(z3.ULT(x, y)):
+                raise Unsupported('bit-vector int subtraction may go negative')
+            return VBV(z3.simplify(x - y))
         raise Unsupported('arithmetic %s on bit-vector ints' % type(op).__name__)
 
     # ---- subscripts
